@@ -58,6 +58,31 @@ def check_case(spec, inst, mo, churn_seed=None):
         if g.get_node_by_id(k) is not None: probs.append(f'lookup by absent id {k} returns a node')
     for nm in ['nosuch:step'] + [x + 'x' for x in names[:2]]:
         if nm not in names and g.get_node_by_full_name(nm) is not None: probs.append(f'lookup by absent name returns a node')
+    if not probs and g.nodes:
+        # every node carries its own tags / TTC: editing one node's in place must show neither in another node (two
+        # assets of one type, an inherited step) nor in a graph generated afterwards from the same language graph
+        from ..genrun import graph_obs
+        from maltoolbox.attackgraph import AttackGraph
+        by_kind = {}
+        for n in g.nodes: by_kind.setdefault((str(n.asset.type), n.name), []).append(n)
+        shared = [ns for ns in by_kind.values() if len(ns) > 1]
+        x = (random.Random(len(g.nodes)).choice(shared)[0]) if shared else g.nodes[0]
+        x.tags.append('probe-tag')
+        if isinstance(x.ttc, dict):
+            x.ttc['probe'] = 1
+            if isinstance(x.ttc.get('arguments'), list): x.ttc['arguments'].append(0.125)
+        wd = {n['full_name']: n for n in want}
+        def faithful(graph, skip, what):
+            for n in graph_obs(graph)['nodes']:
+                if n['full_name'] == skip: continue
+                w = wd[n['full_name']]
+                for k in ('tags', 'ttc'):
+                    if n[k] != w[k]:
+                        return f'attribute {k} of {n["full_name"]} is {n[k]!r}, expected {w[k]!r} {what}'
+            return None
+        p = faithful(g, x.full_name, f'after {x.full_name} was edited in place (nodes share mutable data)')
+        p = p or faithful(AttackGraph(lg, m), None, f'in a graph generated after a node of an earlier graph ({x.full_name}) was edited in place')
+        if p: probs.append(p)
     if probs:
         return Violation(what=probs[0], fingerprint='C02:' + probs[0].split(' of ')[0].split(':')[0][:40],
                          replay={'spec': spec, 'inst': inst, 'problems': probs})
